@@ -181,6 +181,17 @@ func c20Generate(seed int64, idx int) c20Case {
 		for k := rng.Intn(3); k > 0; k-- {
 			g.emit(file, "\tn = n*2 + %d", rng.Intn(5))
 		}
+		if rng.Chance(1, 4) {
+			// a function literal before the line of interest: the enclosing function is still the one reported
+			g.emit(file, "\th%d := func(a int) int {", i)
+			g.emit(file, "\t\treturn a + 1")
+			g.emit(file, "\t}")
+			if rng.Bool() {
+				g.emit(file, "\tn = h%d(n)", i)
+			} else {
+				g.emit(file, "\tn += len([]func(int) int{h%d})", i)
+			}
+		}
 		if i == depth-1 {
 			for _, s := range fault.setup {
 				g.emit(file, "\t%s", s)
